@@ -28,7 +28,8 @@ ASSUMPTIONS = ["stop() runs on the virtual clock: its 1 s polling sleeps are 1 m
                "after stop() returned"]
 TIMEOUT = {"quick": 900, "thorough": 3600}
 SCTP_CLONES = {"quick": ['s11', 's5'], "thorough": ['s12', 's13', 's14', 's15']}
-STATES = ["connecting", "await_cer", "await_cea", "ready", "ready_idle_soon", "waiting_dwa", "disconnecting"]
+STATES = ["connecting", "await_cer", "await_cea", "ready", "ready_idle_soon", "waiting_dwa", "disconnecting",
+          "ready_after_unencodable"]     # ready, and a message queued for it earlier could not be encoded
 REACTIONS = ["prompt", "late", "never", "close", "dpa_then_close", "handshake_during_stop", "dpa_output_pending"]
 
 
@@ -94,6 +95,18 @@ class Case:
             sp.send(M.cer(name, self.REALM, auth=[4], hbh=1, e2e=i + 1))
             h.settle()
             sp.drain()
+        for i, (st, _) in enumerate(self.spec["conns"]):
+            if st == "ready_after_unencodable" and self.sp[i] is not None:
+                from diameter.message.commands import CreditControlRequest
+                bad = CreditControlRequest()
+                bad.session_id = "bad;1"
+                bad.cc_request_number = "not-a-number"
+                bad.header.hop_by_hop_identifier = 4242
+                bad.header.end_to_end_identifier = 4243
+                c = h.conn_of(self.sp[i])
+                if c is not None:
+                    self.node.send_message(c, bad)
+                    h.settle()
         if any(st == "waiting_dwa" for st, _ in self.spec["conns"]):
             h.advance(6)
             h.settle()
@@ -123,7 +136,8 @@ class Case:
                     continue
                 c = h.conn_of(sp)
                 # ground truth from the history (which exchange took place on it), not the library's state field
-                ready_at_stop[i] = c is not None and spec["conns"][i][0] in ("ready", "ready_idle_soon", "waiting_dwa")
+                ready_at_stop[i] = c is not None and spec["conns"][i][0] in ("ready", "ready_idle_soon", "waiting_dwa",
+                                                                             "ready_after_unencodable")
             seen = [len(sp.frames) if sp is not None else 0 for sp in self.sp]
             result = {}
 
@@ -219,7 +233,8 @@ class Case:
                     # not kept until the wait timeout
                     # (the I/O loop serves one "wants attention" notice per iteration, and every queued message of every
                     # connection raises one: the bound grows with what the other connections have under way)
-                    if it >= j + 4 + 8 * len(self.sp):
+                    noisy = sum(1 for _, re in spec["conns"] if re == "dpa_output_pending")
+                    if it >= j + 4 + 10 * noisy:
                         if not self.sp[i].node_sock.closed and h.now - t0 < spec["wait_timeout"] - 1:
                             self.witness("shutdown.connection_not_closed_after_dpa", {"conn": i, "iterations": it - j})
                         del dpa_at[i]
